@@ -366,6 +366,36 @@ class Inliner:
             elif isinstance(val, list):
                 setattr(st, fld, [T().visit(v) if isinstance(v, ast.AST) else v for v in val])
 
+    def hoist_test(self, st: ast.stmt, caller_names: set[str], depth: int) -> list[ast.stmt] | None:
+        """`if [not] helper(...):` / `return [not] helper(...)` with a multi-statement helper: evaluate the helper into a
+        temporary first (`t = helper(...)`, inlined), then test the temporary.  The test is the first thing the
+        statement evaluates, so the order of effects is unchanged."""
+        holder = None
+        if isinstance(st, ast.If):
+            holder = "test"
+        elif isinstance(st, ast.Return) and st.value is not None:
+            holder = "value"
+        if holder is None:
+            return None
+        e = getattr(st, holder)
+        neg = False
+        if isinstance(e, ast.UnaryOp) and isinstance(e.op, ast.Not):
+            e, neg = e.operand, True
+        if not isinstance(e, ast.Call) or (holder == "value" and not neg):
+            return None
+        if self.resolve(e) is None:
+            return None
+        self.counter += 1
+        tmp = f"__cond{self.counter}"
+        asg = ast.copy_location(ast.Assign(targets=[ast.Name(id=tmp, ctx=ast.Store())], value=e), st)
+        ast.fix_missing_locations(asg)
+        rep = self.inline_stmt(asg, caller_names | {tmp}, depth)
+        if rep is None:
+            return None
+        name = ast.copy_location(ast.Name(id=tmp, ctx=ast.Load()), e)
+        setattr(st, holder, ast.copy_location(ast.UnaryOp(op=ast.Not(), operand=name), e) if neg else name)
+        return rep
+
     def process_body(self, body: list[ast.stmt], caller_names: set[str], depth: int = 0) -> list[ast.stmt]:
         out: list[ast.stmt] = []
         for st in body:
@@ -373,6 +403,9 @@ class Inliner:
             if rep is not None:
                 out.extend(rep)
                 continue
+            pre = self.hoist_test(st, caller_names, depth)
+            if pre is not None:
+                out.extend(pre)
             self.inline_exprs(st, caller_names)
             for fld in ("body", "orelse", "finalbody"):
                 sub = getattr(st, fld, None)
